@@ -32,7 +32,9 @@ const STYLES: [(ConflictMarkerStyle, &str); 4] = [
     (ConflictMarkerStyle::Git, "git"),
 ];
 const PLAIN: &[&str] = &["a\n", "b\n", "c\n", "d\n", "e\n", "\n", "a\r\n"];
-const TRICKY: &[&str] = &["a\n", "b\n", "c\n", "<<<<<<<\n", "+++++++ x\n", "------- y\n", "%%%%%%%\n", ">>>>>>>\n", "=======\n", "|||||||\n", "-a\n", " a\n"];
+const TRICKY: &[&str] = &["a\n", "b\n", "c\n", "<<<<<<<\n", "+++++++ x\n", "------- y\n", "%%%%%%%\n", ">>>>>>>\n", "=======\n", "|||||||\n", "-a\n", " a\n",
+    // look-alikes one character short of a marker: a `-`/`+` diff prefix completes them (seed C06)
+    "------\n", "++++++\n", "------ z\n", "<<<<<<\n", "+\n", "-\n", "++++++++++ long\n"];
 
 type Ids = Merge<Option<FileId>>;
 
